@@ -41,9 +41,23 @@ WRITERS = {'snprintf': 0, 'sprintf': 0, 'strcpy': 0, 'strncpy': 0, 'memset': 0, 
 NULLABLE_GLOBALS = {'environ', '__environ'}
 
 
+# record fields that may legitimately be NULL (exec inputs): record -> fields
+NULLABLE_FIELDS = {'snoopy_inputdatastorage_t': {'argv', 'envp'}}
+# ... and whose first element may be NULL
+NULLABLE_FIRST_ELEM = {'snoopy_inputdatastorage_t': {'argv'}}
+
+
 def ent_of(node):
     s = strip(node)
     if s is None:
+        return None
+    if s.k == 'MemberExpr' and s.get('member') in NULLABLE_FIELDS.get(s.get('record'), ()):
+        return ('f', s.get('record'), s.get('member'))
+    if s.k == 'ArraySubscriptExpr':
+        b = strip(s.ch[0])
+        if b is not None and b.k == 'MemberExpr' and b.get('member') in NULLABLE_FIRST_ELEM.get(b.get('record'), ()) \
+                and strip(s.ch[1]).get('v') == 0:
+            return ('e', b.get('record'), b.get('member'))
         return None
     if s.k == 'UnaryOperator' and s['op'] == '&':
         s = strip(s.ch[0])
@@ -60,6 +74,10 @@ def ent_of(node):
 def ent_name(func, ent):
     if ent[0] == 'g':
         return ent[1]
+    if ent[0] == 'f':
+        return '%s->%s' % (ent[1], ent[2])
+    if ent[0] == 'e':
+        return '%s->%s[0]' % (ent[1], ent[2])
     for p in func.params:
         if p['id'] == ent[1]:
             return p['name']
@@ -167,6 +185,12 @@ class NullAnalysis:
         if not summary_mode:
             for g in NULLABLE_GLOBALS:
                 init.add(('null', ('g', g)))
+            for rec, flds in NULLABLE_FIELDS.items():
+                for fl in flds:
+                    init.add(('null', ('f', rec, fl)))
+            for rec, flds in NULLABLE_FIRST_ELEM.items():
+                for fl in flds:
+                    init.add(('null', ('e', rec, fl)))
         origins = {}
 
         def kill_ent(st, ent):
@@ -205,7 +229,7 @@ class NullAnalysis:
             s = strip(expr)
             if s is None:
                 return
-            e = ent_of(s) if s.k == 'DeclRefExpr' else None
+            e = ent_of(s) if s.k in ('DeclRefExpr', 'MemberExpr', 'ArraySubscriptExpr') else None
             if e is not None:
                 if ('null', e) in st and (only_ent is None or e == only_ent):
                     o = origins.get(e)
@@ -438,7 +462,7 @@ class NullAnalysis:
                     return None
                 if x.k == 'BinaryOperator' and x['op'] == '=':
                     return ent_of(x.ch[0])
-                if x.k == 'DeclRefExpr':
+                if x.k in ('DeclRefExpr', 'MemberExpr', 'ArraySubscriptExpr'):
                     return ent_of(x)
                 return None
             if c.k == 'BinaryOperator' and c['op'] in ('==', '!='):
